@@ -141,7 +141,7 @@ def run(tier, seed):
     t1, tl, t2 = optsets(tier)
     if tier == 'quick':
         blocks = [('<=1 of {derivation, comment, literal spelling, style} x single targeted options and '
-                   'targeted+layout pairs', {'der', 'cm', 'lit', 'style'}, 1, t1 + tl),
+                   'targeted+layout pairs', {'der', 'cm', 'lit', 'style', 'wstyle'}, 1, t1 + tl),
                   ('seed x pairs of targeted options', set(), 0, t2)]
     else:
         blocks = [('<=2 of {derivation, comment, literal spelling, style} x single targeted options',
